@@ -395,6 +395,41 @@ pub fn rand_elem(rng: &mut Rng, cfg: &GenCfg, kind: usize, optmask: Option<u32>,
         Some(n) => n,
         None => *rng.pick(&[0, 0, 0, 1, 2, 3]),
     };
+    // present-but-default: an optional record that IS in the stream with all bits clear / value zero is not the same library as one
+    // without the record (ELFLAGS 0, PLEX 0, PRESENTATION 0, PATHTYPE 0, WIDTH 0, BGNEXTN/ENDEXTN 0)
+    let (mut elflags, mut plex, mut kind) = (elflags, plex, kind);
+    if rng.chance(1, 4) {
+        if let Some(f) = elflags.as_mut() {
+            *f = [0, 0];
+        }
+        if let Some(p) = plex.as_mut() {
+            *p = 0;
+        }
+        match &mut kind {
+            NKind::Path { pathtype, width, bgnextn, endextn, .. } => {
+                for v in [width, bgnextn, endextn] {
+                    if let Some(x) = v.as_mut() {
+                        *x = 0;
+                    }
+                }
+                if let Some(x) = pathtype.as_mut() {
+                    *x = 0;
+                }
+            }
+            NKind::Text { presentation, pathtype, width, .. } => {
+                if let Some(x) = presentation.as_mut() {
+                    *x = [0, 0];
+                }
+                if let Some(x) = pathtype.as_mut() {
+                    *x = 0;
+                }
+                if let Some(x) = width.as_mut() {
+                    *x = 0;
+                }
+            }
+            _ => {}
+        }
+    }
     NElem { elflags, plex, kind, props: rand_props(rng, cfg, np) }
 }
 
